@@ -89,12 +89,12 @@ class Pipeline:
     hook.wants_lit = True
     hook.override_names = ('ROM128', 'ROM_PLUS2', 'ROM48')
 
-    def sna2skool(self, snap, ctl_lines, start, end, base=10, case=2, line_width=79, **config):
+    def sna2skool(self, snap, ctl_lines, start, end, base=10, case=2, line_width=79, ctl_range=None, **config):
         self.lines, self.warnings = [], []
         self.files['in.ctl'] = [l + '\n' for l in ctl_lines]
         cfc = self.cf.sibling('ctlparser')
         ctl = cfc.new('CtlParser')
-        cfc.call(ctl, 'parse_ctls', ['in.ctl'], start, end)
+        cfc.call(ctl, 'parse_ctls', ['in.ctl'], *(ctl_range or (start, end)))
         cfg = dict(self.defaults)
         cfg.update(config)
         cfg['HandleRST'] = 0
